@@ -100,8 +100,17 @@ other("C01", "the transition tables of PandoraMachine (check and run phases) are
       "execution of whole pipelines through the transitions library, machine reset:")
 other("C02", "point_interval (the column ranges of the two images that a disparity puts in correspondence: in range, equal length, "
       "offset by the disparity, empty when the disparity exceeds the width) and popcount32b (Hamming weight of a 32-bit word, "
-      "bit-vector proof) are proved for all inputs; shift_right_img / census_transform leave their input image untouched ("
-      + FRAME_NOTE + "); the cost values themselves:", trusted=FRAME_TRUSTED)
+      "bit-vector proof) are proved for all inputs; for sad / ssd the two halves of the measure are proved separately: ad_cost / "
+      "sd_cost (monoband: the pixel-wise |L - R| / (L - R)^2 between left column p0+i and right column q0+i) and "
+      "pixel_wise_aggregation (every output cell is np.sum over ITS OWN window_size x window_size window of the pixel-wise volume, "
+      "NaN exactly when the window holds a NaN; the five-axis as_strided view is shown memory-safe) -- their composition inside "
+      "compute_cost_volume (disparity loop, axis swaps, border) is not; shift_right_img / census_transform leave their input image untouched ("
+      + FRAME_NOTE + "); the cost values of whole matching-cost chains (4 measures, sub-pixel shifts, masks, bands), reported "
+      "type_measure / cmax:", trusted=FRAME_TRUSTED + [
+          "assumed contract: np.lib.stride_tricks.as_strided(a, shape, strides) with strides taken from a.strides addresses a[idx], "
+          "idx[axis] = sum of the view indices carrying that axis's stride",
+          "assumed contract: np.sum over a box is a function of the box contents; NaN as soon as one element is NaN, and over "
+          "NaN-or-finite elements NaN only then"])
 reg("C04", "proof",
     "every function that raises a pre-validation bit is under contract and proved over symbolic datasets (vectorised numpy "
     "layer): criteria.mask_border (border pixels end with exactly bit 0); validity_mask for images without input masks (bits 1 "
